@@ -46,6 +46,12 @@ func c13Pool() []c13expr {
 		{"mn", "map-result", false},
 		{`["a":1,"b":2,"c":3,"d":4]`, "map-result", false},
 		{`[m, ["z":0]]`, "map-result", false},
+		// number-keyed maps whose keys do not order like their texts, incl. NaN
+		// (incomparable: an ordering by magnitude cannot place it) and infinities
+		{`[0/0: "nan", 1: "a", 2: "b", 3: "c", 10: "d", 20: "e"]`, "map-result", false},
+		{`string([0/0: "nan", 1: "a", 2: "b", 10: "d", 1/0: "inf", 0-1/0: "ninf"])`, "string-of-map", false},
+		{`string([2: "b", 10: "d", 1.5: "x", 100: "c"])`, "string-of-map", false},
+		{`len(union([[0/0: "x", 1: "a", 2: "b", 3: "c"]], [[0/0: "x", 1: "a", 2: "b", 3: "c"]]))`, "union", false},
 		{"union(xs, ys)", "union", false},
 		{"len(union(xs, ys))", "union", false},
 		{"intersect(xs, ys)", "intersect-diff", false},
